@@ -92,6 +92,60 @@ theorem roundtrip (O : Oracles) (hf : Upnp.C08.FloatOps.RoundTrips O) (row : Typ
         | .ok w => w == Upnp.C08.expectBack row.ty v | .error _ => false) = true
   rw [h2]; simp
 
+/-- the `dateTime` row of the generated table (used to transport C08's round trip to a `datetime`
+    value given for a `date` argument: both rows parse with `parse_date_time`) -/
+def dateTimeRow : TypeRow :=
+  (table.row? "dateTime".toList).getD ⟨[], .str, .str, .str, false⟩
+
+theorem dateTimeRow_facts : dateTimeRow ∈ Gen.C08Types.rows ∧ dateTimeRow.ty = .datetime
+    ∧ dateTimeRow.inK = .parseDateTime := by decide
+
+theorem date_rows : ∀ row ∈ Gen.C08Types.rows, row.ty = .date →
+    row.inK = .parseDateTime ∧ row.outK = .isoformat [] := by decide
+
+/-- the values the decode clause is proved for: C08's round-trip domain, plus a `datetime` given for a
+    `date` argument (`datetime ⊑ date`; rendered with `isoformat()` and parsed back by `parse_date_time`) -/
+def inDom (ty : PyType) (v : PyVal) : Bool :=
+  Upnp.C08.rtDomain ty v || (ty == .date && v.exactType .datetime && Upnp.C08.valueOk v)
+
+/-- a `datetime` under a `date` row: C08's round trip for the `dateTime` row, transported -/
+theorem roundtrip_datetime_as_date (O : Oracles) (hf : Upnp.C08.FloatOps.RoundTrips O) (row : TypeRow)
+    (hrow : row ∈ Gen.C08Types.rows) (hty : row.ty = .date) (v : PyVal)
+    (hex : v.exactType .datetime = true) (hok : Upnp.C08.valueOk v = true) :
+    ∃ t, coerceUpnp O row v = .ok t ∧ decodesTo O row t v = true := by
+  obtain ⟨hin, hout⟩ := date_rows row hrow hty
+  obtain ⟨hdr, hdty, hdin⟩ := dateTimeRow_facts
+  cases v with
+  | datetime d t o =>
+    have hdom : Upnp.C08.rtDomain dateTimeRow.ty (Upnp.C08.Val.datetime (F := Fl) d t o) = true := by
+      rw [hdty]; simp [Upnp.C08.rtDomain, Upnp.C08.Val.exactType, hok]
+    obtain ⟨_, h2⟩ := Upnp.C08.roundtrip_all_types O hf dateTimeRow hdr _ hdom
+    refine ⟨Upnp.C08.wire O (.datetime d t o), ?_, ?_⟩
+    · show Upnp.C08.coerceUpnp O row (.datetime d t o) = _
+      unfold Upnp.C08.coerceUpnp
+      rw [hout]
+      rfl
+    · unfold decodesTo
+      show (match Upnp.C08.coercePython O Gen.C08Types.table row (Upnp.C08.wire O (.datetime d t o)) with
+            | .ok w => w == Upnp.C08.expectBack row.ty (.datetime d t o) | .error _ => false) = true
+      have heq : Upnp.C08.coercePython O Gen.C08Types.table row (Upnp.C08.wire O (.datetime d t o))
+          = Upnp.C08.coercePython O Gen.C08Types.table dateTimeRow (Upnp.C08.wire O (.datetime d t o)) := by
+        unfold Upnp.C08.coercePython; rw [hin, hdin]
+      rw [heq, h2, hdty, hty]
+      simp [Upnp.C08.expectBack]
+  | _ => simp [Upnp.C08.Val.exactType] at hex
+
+/-- the decode clause on the whole domain `inDom` -/
+theorem roundtrip_inDom (O : Oracles) (hf : Upnp.C08.FloatOps.RoundTrips O) (row : TypeRow)
+    (hrow : row ∈ Gen.C08Types.rows) (v : PyVal) (hv : inDom row.ty v = true) :
+    ∃ t, coerceUpnp O row v = .ok t ∧ decodesTo O row t v = true := by
+  unfold inDom at hv
+  cases h1 : Upnp.C08.rtDomain row.ty v with
+  | true => exact roundtrip O hf row hrow v h1
+  | false =>
+    simp only [h1, Bool.false_or, Bool.and_eq_true, beq_iff_eq] at hv
+    exact roundtrip_datetime_as_date O hf row hrow hv.1.1 v hv.1.2 hv.2
+
 /-- the leaf element an XML parser builds for `<name>text</name>` -/
 def leaf (p : Str × Str) : Xml := .node p.1 (if p.2.isEmpty then none else some p.2) []
 
@@ -104,7 +158,7 @@ theorem leaf_text (p : Str × Str) : (leaf p).text.getD [] = p.2 := by
 /-- the in-domain hypothesis of the main theorem for one call: every in-argument's row is a row of
     the generated table and every supplied value lies in C08's round-trip domain for it -/
 def InDomain (ds : List ArgDecl) (kw : Kwargs) : Prop :=
-  ∀ d ∈ ds, d.var.row ∈ Gen.C08Types.rows ∧ ∀ v, kw.lookup d.name = some v → Upnp.C08.rtDomain d.var.row.ty v = true
+  ∀ d ∈ ds, d.var.row ∈ Gen.C08Types.rows ∧ ∀ v, kw.lookup d.name = some v → inDom d.var.row.ty v = true
 
 /-- accepted assignments are rendered argument by argument, and the rendered leaves pass `argsOk` -/
 theorem coerceArgs_ok (O : Oracles) (hf : Upnp.C08.FloatOps.RoundTrips O) (strict : Bool) (kw : Kwargs) :
@@ -130,7 +184,7 @@ theorem coerceArgs_ok (O : Oracles) (hf : Upnp.C08.FloatOps.RoundTrips O) (stric
           simp only [ha] at h
           obtain ⟨args, hc, hn, hok⟩ := ih h (fun d' hd' => hdom d' (by simp [hd']))
           obtain ⟨hrow, hv⟩ := hdom d (by simp)
-          obtain ⟨t, ht, hdec⟩ := roundtrip O hf d.var.row hrow v (hv v hl)
+          obtain ⟨t, ht, hdec⟩ := roundtrip_inDom O hf d.var.row hrow v (hv v hl)
           refine ⟨(d.name, t) :: args, ?_, ?_, ?_⟩
           · unfold coerceArgs; simp [hl, ht, hc]
           · simp [hn]
